@@ -1,11 +1,265 @@
-use vcommon::*;
+//! C42 — sequence-lock readers only see complete, recent values.
+//! Real OS threads over the public `fuel_core_services::seqlock` API with a
+//! value oracle. (The Miri leg lives in ../miri-seqlock and is run by
+//! /verif/lib/miri_seqlock.py.)
+use fuel_core_services::seqlock::SeqLock;
+use std::{
+    collections::BTreeSet,
+    sync::{
+        Arc,
+        Mutex,
+        atomic::{
+            AtomicBool,
+            AtomicU64,
+            Ordering,
+        },
+    },
+    thread,
+    time::{
+        Duration,
+        Instant,
+    },
+};
+use vcommon::{
+    serde_json::json,
+    *,
+};
+
+const WORDS: usize = 8;
+type Payload = [u64; WORDS];
+
+#[derive(Default)]
+struct Obs {
+    reads: u64,
+    fresh: u64,
+    overlapped: u64,
+    distinct: BTreeSet<u64>,
+    violations: Vec<(String, String)>,
+    sample: Vec<String>,
+}
+
+/// One universe: 1 writer + `readers` reader threads over one lock.
+fn universe(
+    report: &Report,
+    seed: u64,
+    idx: usize,
+    readers: usize,
+    writes: u64,
+    selftest: u64,
+    pace: u64,
+) {
+    let (writer, reader) = unsafe { SeqLock::new([0u64; WORDS]) };
+    let completed = Arc::new(AtomicU64::new(0));
+    let done = Arc::new(AtomicBool::new(false));
+    let obs = Arc::new(Mutex::new(Obs::default()));
+
+    let mut hs = Vec::new();
+    for r in 0..readers {
+        let reader = reader.clone();
+        let completed = completed.clone();
+        let done = done.clone();
+        let obs = obs.clone();
+        hs.push(thread::spawn(move || {
+            let mut local = Obs::default();
+            let mut last = 0u64;
+            let mut n = 0u64;
+            loop {
+                let finished = done.load(Ordering::SeqCst);
+                let before = completed.load(Ordering::SeqCst);
+                let mut v: Payload = reader.read();
+                if selftest == 1 && n % 1000 == 999 {
+                    v[WORDS - 1] = v[0].wrapping_add(1); // harness-side torn value
+                }
+                if selftest == 2 && n % 1000 == 999 && v[0] > 0 {
+                    v = [v[0] - 1; WORDS]; // harness-side stale value
+                }
+                let after = completed.load(Ordering::SeqCst);
+                n += 1;
+                local.reads += 1;
+                let first = v[0];
+                let pre = if selftest > 0 { "selftest:" } else { "" };
+                if v.iter().any(|x| *x != first) {
+                    if local.violations.len() < 3 {
+                        local.violations.push((
+                            format!("{pre}torn_read"),
+                            format!("reader {r} read #{n} returned a mix of two writes: {v:?}"),
+                        ));
+                    }
+                } else {
+                    if first < before && local.violations.len() < 3 {
+                        local.violations.push((
+                            format!("{pre}stale_read"),
+                            format!("reader {r} read #{n} returned {first} although write {before} had completed before the read started"),
+                        ));
+                    }
+                    if first < last && local.violations.len() < 3 {
+                        local.violations.push((
+                            format!("{pre}backwards_read"),
+                            format!("reader {r} read #{n} returned {first} after having returned {last}"),
+                        ));
+                    }
+                    if first > after.saturating_add(1) && local.violations.len() < 3 {
+                        local.violations.push((
+                            format!("{pre}never_written_value"),
+                            format!("reader {r} read #{n} returned {first} but only {after} writes had completed after the read"),
+                        ));
+                    }
+                    last = first;
+                }
+                if first > before {
+                    local.overlapped += 1;
+                } else {
+                    local.fresh += 1;
+                }
+                if local.distinct.len() < 100_000 {
+                    local.distinct.insert(first);
+                }
+                if local.sample.len() < 4 && first > before {
+                    local.sample.push(format!("reader{r}: completed_before={before} value={first} completed_after={after}"));
+                }
+                if finished {
+                    break;
+                }
+            }
+            let mut o = obs.lock().unwrap();
+            o.reads += local.reads;
+            o.fresh += local.fresh;
+            o.overlapped += local.overlapped;
+            o.distinct.extend(local.distinct);
+            o.violations.extend(local.violations);
+            o.sample.extend(local.sample);
+        }));
+    }
+
+    let w = {
+        let completed = completed.clone();
+        thread::spawn(move || {
+            for i in 1..=writes {
+                writer.write(move |data| {
+                    for k in 0..WORDS {
+                        // volatile so the stores are not merged into one vector store
+                        unsafe { std::ptr::write_volatile(&mut data[k], i) };
+                        if pace > 0 && k == WORDS / 2 {
+                            for _ in 0..pace {
+                                std::hint::spin_loop();
+                            }
+                        }
+                    }
+                });
+                completed.store(i, Ordering::SeqCst);
+            }
+            // a write whose closure panics after a complete update must leave the
+            // lock usable (sequence even again)
+            let i = writes + 1;
+            let r = catch(|| {
+                writer.write(move |data| {
+                    for k in 0..WORDS {
+                        data[k] = i;
+                    }
+                    panic!("closure panics after a complete update");
+                })
+            });
+            assert!(r.is_err());
+            completed.store(i, Ordering::SeqCst);
+            writer
+        })
+    };
+    let _writer = w.join().expect("writer thread");
+    done.store(true, Ordering::SeqCst);
+
+    // With the writer quiescent a read must return on its first iteration.
+    let (tx, rx) = std::sync::mpsc::channel();
+    {
+        let reader = reader.clone();
+        thread::spawn(move || {
+            let v = reader.read();
+            let _ = tx.send(v);
+        });
+    }
+    match rx.recv_timeout(Duration::from_secs(20)) {
+        Ok(v) => {
+            report.count("quiescent_reads_after_panicking_write");
+            if v != [writes + 1; WORDS] {
+                report.violation(
+                    "quiescent_read_wrong_value",
+                    format!("after all {} writes completed a read returned {v:?}", writes + 1),
+                    json!({"seed": seed, "universe": idx}),
+                );
+            }
+        }
+        Err(_) => {
+            report.violation(
+                "reader_stuck_with_quiescent_writer",
+                "no writer active, but read() did not return within 20 s: the sequence was left odd",
+                json!({"seed": seed, "universe": idx}),
+            );
+            // readers would spin forever; leave them detached
+            report.inconclusive("reader threads abandoned after stuck read");
+            return;
+        }
+    }
+    for h in hs {
+        h.join().expect("reader thread");
+    }
+    let o = obs.lock().unwrap();
+    report.evals(o.reads);
+    report.add("reads", o.reads);
+    report.add("reads_returning_value_newer_than_completed_before (overlapped a write)", o.overlapped);
+    report.add("reads_returning_exactly_completed_before", o.fresh);
+    report.add("writes", writes + 1);
+    report.add("distinct_values_observed", o.distinct.len() as u64);
+    for v in &o.distinct {
+        report.distinct_hash(mix(*v, &[idx as u64, seed]));
+    }
+    for (sig, detail) in &o.violations {
+        report.violation(
+            sig.clone(),
+            detail.clone(),
+            json!({"seed": seed, "universe": idx, "readers": readers, "writes": writes, "note": "real threads: the schedule cannot be forced; the observation itself is the witness"}),
+        );
+    }
+    if report.wants_sample() {
+        report.sample(json!({"universe": idx, "readers": readers, "writes": writes, "overlapping_reads": o.sample}));
+    }
+}
 
 fn main() {
     let args = Args::parse();
     install_quiet_panic_hook();
     let report = Report::new(&args.property);
+    let selftest: u64 = args.extra.get("selftest").and_then(|s| s.parse().ok()).unwrap_or(0);
     match args.property.as_str() {
+        "C42" => {
+            // universes run one after the other; each uses up to 16 threads
+            let t0 = Instant::now();
+            let budget = Duration::from_secs(args.by_tier(20, 240));
+            let mut idx = 0usize;
+            let mut rng = rng_for(args.seed, &[tag("C42")]);
+            use rand::Rng;
+            while t0.elapsed() < budget && idx < args.by_tier(40, 400) {
+                let readers = *pick(&mut rng, &[1usize, 2, 3, 7, 15]);
+                let writes = *pick(&mut rng, &[20_000u64, 100_000, 400_000]);
+                let pace = *pick(&mut rng, &[0u64, 0, 5, 50]);
+                let _: u8 = rng.r#gen();
+                universe(&report, args.seed, idx, readers, writes, selftest, pace);
+                report.count("universes");
+                idx += 1;
+            }
+            report.require("universes", 5);
+            report.require("reads", 1_000_000);
+            report.require("reads_returning_value_newer_than_completed_before (overlapped a write)", 1_000);
+            report.require("quiescent_reads_after_panicking_write", 5);
+        }
         other => report.inconclusive(format!("property {other} not implemented in this monitor")),
     }
-    report.finish(&args, "exploration", "", false, &[]);
+    report.finish(
+        &args,
+        "exploration",
+        "universe = 1 writer + k reader threads on the real SeqLock<[u64;8]>; writer publishes a completed-counter after each write returns; a read is judged for tearing (all 8 words equal), recency (value >= completed counter sampled before the read), per-reader monotonicity and never-written values; distinct = distinct (universe, value) pairs actually returned by reads; non-trivial reads are those that overlapped a write (value newer than the counter sampled before)",
+        false,
+        &[
+            "x86-64 hardware schedule of this machine; interleavings are those the OS produced",
+            "payload of 64 bytes written word by word with volatile stores",
+        ],
+    );
 }
